@@ -42,7 +42,17 @@ ASSUMPTIONS = [
     'hash shortening is only checked for "only when lossless and only with minimizeColorHash on", it is never required; the case '
     'of hexadecimal digits and of keywords is not part of the denotation',
     'string / URL content is the text after resolving every CSS escape; sources are minimally escaped (delimiter, backslash, line '
-    'breaks; in unquoted URLs everything the grammar does not allow bare); quote style and url() form are presentation',
+    'breaks; in unquoted URLs white space as a hexadecimal escape and everything else the grammar does not allow bare by a '
+    'backslash); quote style and url() form are presentation',
+    'the statement does not say in which form the string / URL accessors hand out the content: Value.value and URIValue.uri are '
+    'accepted if they equal the content or are a backslash-escaped spelling of it (resolving the escapes gives the content) - the '
+    'library keeps escapes other than the escaped delimiter in place',
+    'C18.fixpoint is judged for a serialisation only if that serialisation denotes the source (otherwise the family clause has '
+    'already failed and there is no round trip to speak of); what the sheet entry point adds is reported only for values the plain '
+    'entry point handles without any violation (signature suffix entry=sheet-only)',
+    'a string / URL witness in which no single character role is essential (every variant with one role replaced by "a" still '
+    'violates the clause: two overlapping causes) is not reported under a signature of its own - each of those variants is itself '
+    'enumerated and reported; such witnesses are counted in violations.explained-by-simpler-witnesses',
     'two components with nothing between them ("a""b") count as separated by a space; white space around , and / is presentation',
     'the unknown property name "p" is used in the sheet entry point (validation only logs)',
     'colour keyword table: typed in from CSS3 Color 4.3 (see mc/model/ref_number.py for the cross-check done at authoring time)',
